@@ -481,7 +481,92 @@ def sample(seed):
     return sorted(set(n for n in ns if n < 10 ** 12))
 
 
+# ------------------------------------------------------------------ pairs (C08): two numbers below 100 said one after the other
+CONJ = {"en": "and", "fr": "et", "es": "y", "pt": "e", "it": "e", "de": "und", "nl": "en"}
+GLUED = ("it", "de", "nl")
+
+
+def norm_words(code, phrase):
+    w = phrase.replace("-", " ").split()
+    if code == "fr":
+        w = ["vingt" if x == "vingts" else x for x in w]     # the plural mark of quatre-vingts is not a different word
+    return w
+
+
+def pairs(code):
+    """lines: lang<TAB>phrase<TAB>accepted renderings separated by '|'"""
+    sp = SPELL[code]
+    # every standard spelling below 200, as a word list (hyphens are word breaks) and, for glued languages, as one string
+    by_words, by_glue = {}, {}
+    conj = CONJ[code]
+    for c in range(0, 200):
+        # the conjunction is optional inside a number (C01: "optional conjunction"): spellings are compared without it
+        w = [x for x in norm_words(code, sp(c)) if x != conj]
+        by_words.setdefault(" ".join(w), c)
+        by_glue.setdefault("".join(w).replace("ën", "en").replace("é", "e") if code in ("nl", "it") else "".join(w), c)
+    out = []
+    for a in range(1, 100):          # a leading zero attaches to the number that follows (C16), so a starts at 1
+        for b in range(0, 100):
+            for joiner in ("", CONJ[code]):
+                if code == "fr" and 9 in (a, b):
+                    continue    # "neuf" alone also means "new": the French annotation pass decides from the context (pinned by the suite)
+                if code == "fr" and b >= 80 and a % 10 == 0 and (20 <= a <= 60 or a == 80):
+                    continue    # "vingt quatre vingt": the words themselves are ambiguous (24 20 / 20 80)
+                wa, wb = norm_words(code, sp(a)), norm_words(code, sp(b))
+                words = wa + ([joiner] if joiner else []) + wb
+                phrase = " ".join(words)
+                ok = [f"{a} {joiner} {b}".replace("  ", " ")]
+                core = [x for x in wa + wb if x != conj]
+                fused = by_words.get(" ".join(core))
+                if fused is None and code in GLUED:
+                    # split forms of a glued compound ("ein und zwanzig" for "einundzwanzig"): compare the letters
+                    g = "".join(wa + ([joiner] if joiner else []) + wb)
+                    fused = by_glue.get(g.replace("ën", "en") if code == "nl" else g)
+                    if fused is None:
+                        fused = by_glue.get("".join(core).replace("é", "e"))
+                if fused is not None:
+                    ok.append(str(fused))
+                out.append(f"{code}\t{phrase}\t{'|'.join(ok)}")
+    return out
+
+
+DIGITS = {"en": "zero one two three four five six seven eight nine", "fr": "zéro un deux trois quatre cinq six sept huit neuf",
+          "es": "cero uno dos tres cuatro cinco seis siete ocho nueve", "pt": "zero um dois três quatro cinco seis sete oito nove",
+          "it": "zero uno due tre quattro cinque sei sette otto nove", "de": "null eins zwei drei vier fünf sechs sieben acht neun",
+          "nl": "nul een twee drie vier vijf zes zeven acht negen"}
+
+
+def dictate(code, seed):
+    """digit dictation (C08): zeros attach to the following non-zero digit, trailing zeros stand alone"""
+    import itertools
+    words = DIGITS[code].split()
+    rnd = random.Random(seed + 13)
+    strings = ["".join(t) for k in range(1, 5) for t in itertools.product("0123456789", repeat=k)]
+    strings += ["".join(rnd.choice("0123456789") for _ in range(rnd.randint(5, 8))) for _ in range(2000)]
+    out = []
+    for d in strings:
+        groups, zeros = [], ""
+        for ch in d:
+            if ch == "0":
+                zeros += ch
+            else:
+                groups.append(zeros + ch)
+                zeros = ""
+        if zeros:
+            groups.append(zeros)
+        out.append(f"{code}\t{' '.join(words[int(ch)] for ch in d)}\t{' '.join(groups)}")
+    return out
+
+
 if __name__ == "__main__":
+    if len(sys.argv) > 2 and sys.argv[2] == "dictate":
+        for code in (sys.argv[3:] or list(SPELL)):
+            print("\n".join(dictate(code, int(sys.argv[1]))))
+        sys.exit(0)
+    if len(sys.argv) > 2 and sys.argv[2] == "pairs":
+        for code in (sys.argv[3:] or list(SPELL)):
+            print("\n".join(pairs(code)))
+        sys.exit(0)
     seed = int(sys.argv[1]) if len(sys.argv) > 1 else 0
     if len(sys.argv) > 2 and sys.argv[2] == "ordinals":
         for code in (sys.argv[3:] or list(ORD)):
